@@ -293,9 +293,17 @@ Termination == <>AllDone
 
 \* per-instance verdict: one line per halted state, never a TLC-level failure,
 \* so that one run reports every bad instance of the batch
+\* a rank returned although one of its receive requests never completed / all
+\* ranks returned although a message was never received: something was posted
+\* or sent that no part waits for
+RequestLeft == \E r \in Ranks : pc[r] = "done" /\ pending[r] # <<>>
+MessageLeft == AllDone /\ \E ch \in DOMAIN net : net[ch] # <<>>
+NoLeftovers == ~RequestLeft /\ ~MessageLeft
 Clause == IF Errs # {} THEN CHOOSE e \in Errs : TRUE
           ELSE IF Deadlock THEN "deadlock"
           ELSE IF ~FaithfulRecv THEN "misdelivery"
+          ELSE IF RequestLeft THEN "request_left_pending"
+          ELSE IF MessageLeft THEN "message_never_received"
           ELSE "ok"
 Report == /\ (Halted => PrintT(<<"T", I.id, Clause>>))
           /\ (~Halted /\ ~FaithfulRecv => PrintT(<<"T", I.id, "misdelivery">>))
